@@ -156,11 +156,7 @@ def check_history(acts, preds, maxcache, oracle, out, label):
         case = dict(kind=label, actions=acts, call_index=i, maxcache=maxcache)
         fresh_out, fresh_text, fresh_diff = oracle.get(act[1], rec['star'], rec['regs'])
         why = None
-        if rec['diff']:
-            why = 'frame condition: %s changed (structure or identity) during the call' % rec['diff']
-        elif fresh_diff:
-            why = 'frame condition (fresh interpreter): %s changed during the call' % fresh_diff
-        elif rec['out'] != fresh_out:
+        if rec['out'] != fresh_out:
             why = 'history dependence: outcome %s differs from the same call made first in a fresh interpreter %s' \
                   % (json.dumps(rec['out'])[:300], json.dumps(fresh_out)[:300])
         elif rec['text'] != fresh_text:
@@ -170,6 +166,10 @@ def check_history(acts, preds, maxcache, oracle, out, label):
             if pred != rec['out']:
                 why = 'outcome %s differs from the specification\'s prediction %s' \
                       % (json.dumps(rec['out'])[:300], json.dumps(pred)[:300])
+        if why is None and rec['diff']:
+            why = 'frame condition: %s changed (structure or identity) during the call' % rec['diff']
+        elif why is None and fresh_diff:
+            why = 'frame condition (fresh interpreter): %s changed during the call' % fresh_diff
         if why:
             out['bad'].append(dict(why=why, case=dict(case, observed=rec['out'], fresh=fresh_out,
                                                       text=rec['text'][:600], fresh_text=fresh_text[:600])))
@@ -574,6 +574,8 @@ def _main(check, tier, seed):
         'wildcards are applied to dicts and attribute objects only; "**", string iteration and big ints are outside the model (rows skipped)',
         'a pristine child forked from the just-imported parent stands for a fresh interpreter (cross-checked against spawned interpreters)',
         'TLC, the Json community module and the value / spec codec are trusted']
+    # outcome / trace differences first, frame-condition-only reports after them
+    check.violations.sort(key=lambda v: 0 if 'differ' in v['why'] else 1)
     return check.finish(rule='TLC enumerates every history of <= MaxHist actions (pool calls, PATH_STAR toggles, registrations); '
                         'every maximal history is performed in one interpreter and each call compared with the prediction, with the '
                         'same call made first in a fresh interpreter, and with deep snapshots of target / spec / scope; long random '
